@@ -14,6 +14,7 @@ request); signal.getsignal(SIGINT) the same object; the wake-up fd what it was; 
 to the out-stream into the reference terminal: cursor visible, main buffer active, main buffer content as before entering a FullscreenWindow.
 """
 import fcntl
+import itertools
 import os
 import select
 import signal
@@ -241,6 +242,38 @@ def window_ops(cursor_aware):
     return ops
 
 
+def unentered_ops():
+    """A program that never enters the Input (the README's `with Cbreak(sys.stdin): for e in Input(): ...` style) and itself
+    switches the stream between blocking and non-blocking between requests."""
+    base = dict(input_ops())
+
+    def set_nonblocking(env, inp):
+        os.set_blocking(env.slave, False)
+
+    def set_blocking(env, inp):
+        os.set_blocking(env.slave, True)
+
+    return [("send0", base["send0"]), ("key_send0", base["key_send0"]), ("paste_send0", base["paste_send0"]), ("set_nonblocking", set_nonblocking), ("set_blocking", set_blocking)]
+
+
+class Unentered:
+    """Cbreak is entered; the Input it hands out never is."""
+
+    def __init__(self, env, **kw):
+        import curtsies
+        from curtsies.termhelpers import Cbreak
+
+        self.cb = Cbreak(env.ins)
+        self.inp = curtsies.Input(in_stream=env.ins, **kw)
+
+    def __enter__(self):
+        self.cb.__enter__()
+        return self.inp
+
+    def __exit__(self, *exc):
+        return self.cb.__exit__(*exc)
+
+
 def helper_ops():
     def noop(env, obj):
         pass
@@ -297,6 +330,7 @@ def contexts():
     out.append(("Cbreak", (lambda env: Cbreak(env.ins)), "helper"))
     out.append(("Nonblocking", (lambda env: Nonblocking(env.ins)), "helper"))
     out.append(("Termmode", (lambda env: Termmode(env.ins, termios.tcgetattr(env.slave))), "helper"))
+    out.append(("Input never entered, used inside Cbreak", (lambda env: Unentered(env, sigint_event=False)), "input_unentered"))
     out.append(("Input nested in Input", (lambda env: Nested(curtsies.Input(in_stream=env.ins, sigint_event=True), curtsies.Input(in_stream=env.ins, sigint_event=False))), "input"))
     out.append(("Input inside FullscreenWindow", (lambda env: Nested(curtsies.FullscreenWindow(out_stream=env.proxy), curtsies.Input(in_stream=env.ins, sigint_event=True))), "input"))
     return out
@@ -305,6 +339,8 @@ def contexts():
 def ops_for(kind):
     if kind == "input":
         return input_ops()
+    if kind == "input_unentered":
+        return unentered_ops()
     if kind == "fullscreen":
         return window_ops(False)
     if kind == "cursoraware":
@@ -397,6 +433,7 @@ def execute(env, cfg, factory, kind, body, crash, cdir, lifecycle="fresh"):
 
     outcome = "normal"
     between_request_flags = []
+    expected_nb = os.O_NONBLOCK if cfg["nonblock"] else 0
     use_prof = crash is not None and crash[0] in ("async", "count")
     if crash and crash[0] == "read":
         ci.os = FaultyOS(crash[1])
@@ -415,8 +452,10 @@ def execute(env, cfg, factory, kind, body, crash, cdir, lifecycle="fresh"):
                     if crash == ("prefix", i):
                         raise Boom()
                     op(env, obj)
-                    if kind == "input":
-                        between_request_flags.append(fcntl.fcntl(env.slave, fcntl.F_GETFL) & os.O_NONBLOCK)
+                    if name in ("set_nonblocking", "set_blocking"):
+                        expected_nb = os.O_NONBLOCK if name == "set_nonblocking" else 0
+                    if kind.startswith("input"):
+                        between_request_flags.append((fcntl.fcntl(env.slave, fcntl.F_GETFL) & os.O_NONBLOCK, expected_nb))
                 if crash == ("prefix", len(body)):
                     raise Boom()
                 state["armed"] = False
@@ -443,8 +482,13 @@ def execute(env, cfg, factory, kind, body, crash, cdir, lifecycle="fresh"):
     # ---- oracle ----------------------------------------------------------------------------------------------
     if s1["tty"] != s0["tty"]:
         fails.append(("C12:tty_attributes_not_restored", "before %r after %r" % (s0["tty"][:4], s1["tty"][:4])))
-    if s1["fl"] != s0["fl"]:
-        fails.append(("C12:file_status_flags_not_restored", "before %o after %o" % (s0["fl"], s1["fl"])))
+    want_fl = s0["fl"]
+    if kind == "input_unentered":
+        # nothing that was entered touches the status flags: they are what the program itself set last
+        want_fl = (s0["fl"] & ~os.O_NONBLOCK) | expected_nb
+    if s1["fl"] != want_fl:
+        fails.append(("C12:file_status_flags_not_restored", "before %o after %o" % (want_fl, s1["fl"])))
+        fcntl.fcntl(env.slave, fcntl.F_SETFL, s0["fl"])
     if s1["sigint"] is not s0["sigint"]:
         fails.append(("C12:sigint_handler_not_restored", "before %r after %r" % (s0["sigint"], s1["sigint"])))
     if s1["wakeup"] != s0["wakeup"]:
@@ -463,9 +507,8 @@ def execute(env, cfg, factory, kind, body, crash, cdir, lifecycle="fresh"):
     if kind == "fullscreen" or "FullscreenWindow" in cfg["context"]:
         if s1["main"] != s0["main"]:
             fails.append(("C12:main_screen_content_changed", ""))
-    init_nb = os.O_NONBLOCK if cfg["nonblock"] else 0
-    if any(f != init_nb for f in between_request_flags):
-        fails.append(("C12:stream_nonblocking_between_requests", "O_NONBLOCK after requests: %r, initially %r" % (between_request_flags, init_nb)))
+    if any(f != want for f, want in between_request_flags):
+        fails.append(("C12:stream_nonblocking_between_requests", "(O_NONBLOCK after the operation, what the program had set) per operation: %r" % (between_request_flags,)))
     for fd in s1["fds"] - s0["fds"]:
         try:
             os.close(fd)
@@ -507,7 +550,15 @@ def shard(args):
     bodies = [[]] + [[o] for o in ops]
     two = [[a, b] for a in ops for b in ops if not a[0].startswith("big_") and not b[0].startswith("big_")]
     bodies += two if (thorough or cfg_idx in (0, 9)) else two[:: 3]
+    if kind == "input_unentered":
+        # every sequence of up to 4 operations: the program flips the blocking mode between requests that really read
+        depth = 4 if (thorough or cfg_idx in (0, 6)) else 3
+        bodies = [list(b) for d in range(depth + 1) for b in itertools.product(ops, repeat=d)]
     async_cfg = thorough or cfg_idx in (0, 7, 8, 9)
+    if kind == "input_unentered":
+        # an asynchronous exception inside the Nonblocking helper's own __enter__/__exit__ (used by every read) is outside that
+        # helper's context, and a never-entered Input has no enclosing context of its own whose exit could repair it
+        async_cfg = False
     reusable = "Fullscreen" not in name  # blessed's fullscreen() context manager is one-shot by construction
 
     def record(body, crash, fails, outcome, lifecycle="fresh"):
@@ -601,6 +652,108 @@ def thread_shard(args):
     return acc.export()
 
 
+def cross_thread_shard(args):
+    """One Input object used on the main thread AND as a context on another thread, while a second Input holds a context (and
+    the process-wide signal wake-up descriptor) on the main thread.  Descriptor numbers freed by the first use are reused by the
+    second Input, so anything the first object still remembers about them is stale.  Nothing that belongs to the second Input or
+    to the program may be touched when the first one's context is left on either thread."""
+    tier, seed = args
+    import curtsies
+
+    acc = Acc(seed=seed)
+    env = Env()
+    ops = dict(input_ops())
+    bodies = [[], ["send0"], ["key_send0"], ["ts_trigger"], ["key_send0", "send0"]]
+
+    def use(inp, body, crash, errs):
+        try:
+            with inp:
+                for i, n in enumerate(body):
+                    if crash == i:
+                        raise Boom()
+                    ops[n](env, inp)
+                if crash == len(body):
+                    raise Boom()
+        except Boom:
+            pass
+        except Exception as ex:  # noqa
+            errs.append(("C12:body_raises:" + type(ex).__name__, repr(ex)))
+
+    def on_thread(fn):
+        t = threading.Thread(target=fn)
+        t.start()
+        t.join()
+
+    def alive(fd):
+        try:
+            os.fstat(fd)
+            return True
+        except OSError:
+            return False
+
+    for sig_a in (False, True):
+        for sig_b in (False, True):
+            for order in ("main_then_thread", "thread_then_main", "main_thread_main"):
+                for body in bodies:
+                    for crash in [None] + list(range(len(body) + 1)):
+                        env.reset("canonical_echo", False, "custom", "none")
+                        case = {"context": "one Input on main thread and worker thread, another Input entered on the main thread", "sigint_event": [sig_a, sig_b], "order": order, "body": body, "crash": crash}
+                        acc.case(True, key=(sig_a, sig_b, order, tuple(body), crash), sample=case)
+                        acc.transitions += 1
+                        fails = []
+                        fds00 = open_fds()
+                        a = curtsies.Input(in_stream=env.ins, sigint_event=sig_a)
+                        steps = {"main_then_thread": ["main", "B", "thread"], "thread_then_main": ["thread", "B", "main"], "main_thread_main": ["main", "B", "thread", "main"]}[order]
+                        b = None
+                        try:
+                            for st in steps:
+                                if st == "B":
+                                    b = curtsies.Input(in_stream=env.ins, sigint_event=sig_b)
+                                    b.__enter__()
+                                    s0 = env.snapshot()
+                                    continue
+                                if st == "main":
+                                    use(a, body, crash, fails)
+                                else:
+                                    on_thread(lambda: use(a, body, crash, fails))
+                                if b is not None:
+                                    s1 = env.snapshot()
+                                    lost = sorted(s0["fds"] - s1["fds"])
+                                    if lost:
+                                        fails.append(("C12:foreign_descriptors_closed", "descriptors %r open before the context on the %s thread are closed after it" % (lost, st)))
+                                    extra = sorted(s1["fds"] - s0["fds"])
+                                    nts = body.count("ts_trigger")
+                                    if extra and not (nts and len(extra) <= 2 * nts * 3):
+                                        fails.append(("C12:file_descriptors_leaked", "leaked %r" % (extra,)))
+                                    if s1["wakeup"] != s0["wakeup"] or (s1["wakeup"] not in (-1, None) and not alive(s1["wakeup"])):
+                                        fails.append(("C12:wakeup_fd_not_restored", "before %r after %r (open: %r)" % (s0["wakeup"], s1["wakeup"], alive(s1["wakeup"]) if s1["wakeup"] not in (-1, None) else None)))
+                                    if s1["sigint"] is not s0["sigint"]:
+                                        fails.append(("C12:sigint_handler_not_restored", "another Input's context on the %s thread changed the handler" % st))
+                                    if b.wakeup_read_fd is not None and not alive(b.wakeup_read_fd):
+                                        fails.append(("C12:foreign_descriptors_closed", "the entered Input's wake-up pipe is closed"))
+                                    # the Input that is still entered must keep working
+                                    try:
+                                        env.feed_input(b"k")
+                                        if b.send(0) != "k":
+                                            fails.append(("C12:entered_input_broken_by_other_context", "no keypress"))
+                                    except Exception as ex:  # noqa
+                                        fails.append(("C12:entered_input_broken_by_other_context", repr(ex)))
+                        finally:
+                            if b is not None:
+                                try:
+                                    b.__exit__(None, None, None)
+                                except Exception as ex:  # noqa
+                                    fails.append(("C12:exit_raises:" + type(ex).__name__, repr(ex)))
+                        for fd in open_fds() - fds00:
+                            try:
+                                os.close(fd)
+                            except OSError:
+                                pass
+                        for sg, m in fails:
+                            acc.failure(sg, case, m)
+    return acc.export()
+
+
 def execute_thread(env, cfg, factory, kind, body, crash, cdir):
     """Like execute(), but signal state can only be touched from the main thread: it is set up once and only read here."""
     import curtsies.input as ci
@@ -661,6 +814,8 @@ def run(ctx):
         rep.merge(d, "contexts")
     for d in ctx.pmap(thread_shard, [(ctx.tier, ctx.seed), (ctx.tier, ctx.seed + 1)][:1]):
         rep.merge(d, "non_main_thread")
+    for d in ctx.pmap(cross_thread_shard, [(ctx.tier, ctx.seed)]):
+        rep.merge(d, "same_input_on_two_threads")
     rep.validated = rep.n
     rep.rule = (
         "%d context kinds/options x 12 initial environments (6 tty attribute sets, O_NONBLOCK on/off, previous SIGINT handler default/custom, "
